@@ -1,0 +1,17 @@
+//go:build verif && !test
+
+package verifapi
+
+import (
+	"github.com/glebziz/fs_db/internal/utils/disk"
+	"github.com/glebziz/fs_db/internal/utils/os"
+)
+
+// WriteFault: see internal/utils/os/file_verif.go.
+type WriteFault = os.WriteFault
+
+// SetWriteFaults installs the process-global write fault plan (nil = none).
+func SetWriteFaults(fs []WriteFault) { os.SetWriteFaults(fs) }
+
+// SetReportedFree overrides the free space disk.Usage reports per path prefix (nil = none).
+func SetReportedFree(byPrefix map[string]uint64) { disk.SetReportedFree(byPrefix) }
